@@ -8,7 +8,7 @@ request:  sim <R|F> <de|ed> <nPre> <nPer> <nCols> ; <section> ; <section> ...
              O <row> <row> ...                        (rows to print)
   prefix expression tokens:  c <num/den> | v <row> <shift> | n e | + e e | - e e | * e e | / e e | f <k> e
   mode R = exact rationals, F = IEEE doubles (replies are the 64 bits of each double)
-reply:    ok <admissible flag per step, T/F> <branch per step: S simulate, W when_data fallback, X exogenized> ; <row>: v ... ; ...
+reply:    ok <admissible flag per step, T/F> <branch per step: S simulate, W when_data fallback, X exogenized> <C|N: closed-form order condition holds> ; <row>: v ... ; ...
           (values for the base columns nPre .. nPre+nPer-1)   |  err:bad | err:unsupported | bad-op
 -/
 import IrisVerif.Model.Sequential
@@ -153,7 +153,10 @@ def runCase {β : Type} [Carrier β] (cd : Codec β) (exact : Bool) (order : Str
       | .error _ => "?"
     let flags := String.ofList ((admissibleFlags c.eqs plan sched).map fun b => if b then 'T' else 'F')
     let rows := c.out.map fun r => toString r ++ ": " ++ " ".intercalate (base.map fun t => cd.show_ (tbl r t))
-    "ok " ++ flags ++ " " ++ tags ++ " ; " ++ " ; ".intercalate rows
+    -- does the model text meet the hypotheses of the closed-form admissibility theorem for this order and span?
+    let closed : Bool := decide (AllSelfOK c.eqs) && decide (DistinctWrites c.eqs) &&
+      (if order = "de" then decide (DatesEquationsCond c.eqs base) else decide (EquationsDatesCond c.eqs base))
+    "ok " ++ flags ++ " " ++ tags ++ " " ++ (if closed then "C" else "N") ++ " ; " ++ " ; ".intercalate rows
 
 def runWith {β : Type} [Carrier β] (cd : Codec β) (exact : Bool) (order : String) (nPre nPer nCols : Nat)
     (sections : List String) : String :=
